@@ -181,9 +181,14 @@ class ManualExecutor(Executor):
         self.jobs = []
         self.shut = False
         self.shutdown_calls = []
+        self.fail_next = 0  # injected fault: the next n submit() calls raise OSError, as a pool that cannot start a thread does
 
     def submit(self, fn, *args, **kwargs):
         w = self.w
+        if self.fail_next:
+            self.fail_next -= 1
+            w.rec("base_submit_failed", ex=self.name)
+            raise OSError("can't start new thread")
         if self.shut:
             w.rec("base_submit_refused", ex=self.name)
             raise RuntimeError("cannot schedule new futures after shutdown")
@@ -475,7 +480,8 @@ class PollFn(object):
         self.w = world
         self.name = name
         self.per_sub = per_sub or {}
-        self.calls = calls or [{}]
+        self.calls = [c for c in (calls or [{}]) if "at" not in c] or [{}]
+        self.at = [[c["at"], dict((k, v) for k, v in c.items() if k != "at")] for c in (calls or []) if "at" in c]
         self.n = 0
         self.seen = {}
 
@@ -484,6 +490,12 @@ class PollFn(object):
         k = self.n
         self.n += 1
         extra = self.calls[min(k, len(self.calls) - 1)]
+        for ent in self.at:
+            # [t, extra]: the first call at or after virtual time t behaves as `extra` (once)
+            if len(ent) == 2 and vsched.v_monotonic() >= ent[0]:
+                ent.append("used")
+                extra = ent[1]
+                break
         results = [d.result for d in descriptors]
         w.rec("poll_call", fn=self.name, k=k, results=jsonable(results))
         try:
@@ -922,6 +934,10 @@ class World(object):
             # ["run", exname, jobidx]
             base = self.exs[op[1]][0]
             return base.run_job(op[2])
+        if k == "base_fail":
+            # ["base_fail", exname, n]: the manual base refuses its next n submissions with OSError
+            self.exs[op[1]][0].fail_next = int(op[2])
+            return None
         if k == "runall":
             base = self.exs[op[1]][0]
             n = 0
@@ -1036,6 +1052,9 @@ class World(object):
             for n in list(self.futs):
                 if ".base.j" in n:
                     self.futs.pop(n)
+            # ... and to the exception instances it recorded (their tracebacks keep the harness frames that ran the
+            # callable, hence the base futures and whatever callbacks are still listed on them)
+            self.raised.clear()
             return None
         if k == "alive":
             return dict((lab, r() is not None) for lab, r in sorted(self.weak.items()) if not op[1:] or lab in op[1:])
